@@ -427,6 +427,22 @@ fn run(op: &str, args: &[Sx]) -> Option<Sx> {
                 sx::a(len),
             ])
         }
+        // (bigpolls "op" a_small (a limbs) b_small (b limbs)) -> ("ok" polls) | ("err" message)
+        "bigpolls" => {
+            let (Some(opn), Some(sa), Some(a), Some(sb), Some(b)) = (
+                args.first().and_then(Sx::as_str),
+                args.get(1).and_then(Sx::as_u64),
+                args.get(2).and_then(Sx::as_u64s),
+                args.get(3).and_then(Sx::as_u64),
+                args.get(4).and_then(Sx::as_u64s),
+            ) else {
+                return Some(sx::bad());
+            };
+            match hook::biguint_polls(opn, sa != 0, &a, sb != 0, &b) {
+                Ok(n) => sx::ok(sx::a(n)),
+                Err(m) => sx::l(vec![sx::s("err"), sx::cps(&m)]),
+            }
+        }
         _ => return None,
     })
 }
